@@ -182,6 +182,8 @@ class Report(object):
             # all kept ones are known; the surplus shares the run's classifier but was not stored
             pass
         cov = self.coverage
+        if not cov.get('samples'):
+            raise HarnessError('the check recorded no sample cases')
         cov['parts'] = self.parts
         cov['known_findings_matched'] = {s: len(v) for s, v in hit_known.items()}
         ev = dict(property_id=self.pid, tier=self.tier, seed=seed(), level=self.level,
